@@ -150,8 +150,7 @@ def main(pid, argv):
                 ck.count("op:" + o[0])
         if bad:
             nf += 1
-            if nf <= 3:
-                ck.fail("reg-history", line, bad, impl=il[:1500], model=ml[:1500])
+            ck.fail("reg-history", line, bad, impl=il[:1500], model=ml[:1500])
         elif il != ml:
             ck.tie_broken("history results differ from the model", line[:1200], il[:800], ml[:800])
     rlines = [r[0] for r in rs]
@@ -174,8 +173,7 @@ def main(pid, argv):
                 bad = "Resolver.Resolve returned %s, expected %r" % (ops[1], addr)
         if bad:
             nf += 1
-            if nf <= 3:
-                ck.fail("resolver", line, bad, impl=il[:1200], model=ml[:1200])
+            ck.fail("resolver", line, bad, impl=il[:1200], model=ml[:1200])
         elif il.split(" released=")[0] != ml:
             ck.tie_broken("resolver helper results differ from the model", line[:1200], il[:600], ml[:600])
     ck.extra["failing_inputs_total"] = nf
